@@ -595,5 +595,187 @@ Proof.
   eexists _, _, _. split; [reflexivity|]. split; [exact Hm2|].
   apply Forall_app. split; [exact Hnr|]. constructor; [exact Logic.I|]. constructor; [exact Logic.I|exact Hl2].
 Qed.
+
+(* ---------- C13, totals: forward steps per pass ---------- *)
+Notation S1 := (bs + 1).
+Notation Tc := (Inst.TC tj).
+Notation blk := (TLInv.blk P).
+Notation pendN := (TLInv.pend N P).
+Fixpoint Wsum (fuel : nat) (h : Z) : Z :=
+  match fuel with O => 0 | S f => if h <=? 0 then 0 else Tc (h - blk h) S1 + Wsum f (blk h) end.
+Definition WS (h : Z) : Z := Wsum (Z.to_nat N) h.
+Definition W : Z := WS N.                       (* the forward steps one adjoint pass spends: sum over the period blocks of T(L, b+1) *)
+
+Lemma blk_lt h : 1 <= h -> 0 <= blk h < h.
+Proof. intros Hh. unfold TLInv.blk. pose proof (Z.div_mod (h - 1) P ltac:(lia)). pose proof (Z.mod_pos_bound (h - 1) P ltac:(lia)).
+  assert (0 <= (h - 1) / P) by (apply Z.div_pos; lia). nia. Qed.
+Lemma Wsum_fuel : forall f f' h, (Z.to_nat h <= f)%nat -> (Z.to_nat h <= f')%nat -> Wsum f h = Wsum f' h.
+Proof.
+  induction f as [|f IH]; intros f' h Hf Hf'.
+  - destruct f' as [|f']; [reflexivity|]. cbn [Wsum]. destruct (Z.leb_spec h 0); [reflexivity|lia].
+  - destruct f' as [|f']; cbn [Wsum]; destruct (Z.leb_spec h 0); try reflexivity; try lia.
+    pose proof (blk_lt h ltac:(lia)). rewrite (IH f' (blk h)) by lia. reflexivity.
+Qed.
+Lemma WS_0 : WS 0 = 0. Proof. unfold WS. destruct (Z.to_nat N); reflexivity. Qed.
+Lemma WS_unfold h : 1 <= h <= N -> WS h = Tc (h - blk h) S1 + WS (blk h).
+Proof.
+  intros Hh. unfold WS. destruct (Z.to_nat N) as [|f] eqn:Ef; [lia|]. cbn [Wsum]. destruct (Z.leb_spec h 0); [lia|].
+  pose proof (blk_lt h ltac:(lia)). rewrite (Wsum_fuel f (S f) (blk h)) by lia. reflexivity.
+Qed.
+Lemma blk_pend n0s : TLInv.is_period N P n0s -> blk (pendN n0s) = n0s /\ 1 <= pendN n0s <= N.
+Proof.
+  intros [Hn Hm]. unfold TLInv.blk, TLInv.pend.
+  assert (Hq : n0s = P * (n0s / P)) by (apply Z_div_exact_full_2; lia).
+  set (e := Z.min (n0s + P) N). assert (He : n0s + 1 <= e <= n0s + P /\ e <= N) by (unfold e; lia). split; [|lia].
+  rewrite <- (Z.div_unique (e - 1) P (n0s / P) (e - 1 - n0s)); [lia|lia|lia].
+Qed.
+
+Definition Acct (d0 : Z) (t : TLInv.st) (x : TLInv.xst) : Prop :=
+  d0 = N + TLInv.passes x * W + (W - WS (match TLInv.pcb (TLInv.pcv t) with Some n0s => pendN n0s | None => N - TLInv.r_ t end)).
+
+Lemma acct_step d0 t x t' a x' : TLInv.Inv Tc N P bs d0 t x -> Acct d0 t x -> tres 4 t = (t', TLInv.Act a) -> TLInv.exec N P bs bst x a = Some x' ->
+  Acct (d0 + TLInv.bonus Tc N P bs t) t' x'.
+Proof.
+  intros HI HA Hres Hex. pose proof (TLInv.resume_pcb adv (Inst.advC_range tj) (Inst.advC_one tj) Tc (Inst.TC_1 tj) (Inst.TC_rec tj) N P bs bst HN HP 4 t t' a Hres) as [Hpcb Her].
+  pose proof (TLInv.exec_passes adv (Inst.advC_range tj) (Inst.advC_one tj) Tc (Inst.TC_1 tj) (Inst.TC_rec tj) N P bs bst HN HP x a x' Hex) as Hpass.
+  unfold Acct in *. unfold TLInv.bonus, TLInv.S_. unfold TLInv.Inv, TLInv.InvCore, TLInv.norm in HI.
+  destruct (TLInv.pcv t) as [|n0s|n0s|n0s|n0s p0|n0s|n0s] eqn:Epc; cbn [TLInv.pcb] in *.
+  - (* between blocks *)
+    destruct HI as (_ & Hr & HI). cbn zeta in HI. rewrite Epc in HI. destruct HI as (_ & _ & _ & Hbd & _).
+    destruct (Z.ltb_spec (TLInv.r_ t) N) as [Hlt|Hge].
+    + rewrite Hpcb. assert (Ha : a <> EndReverse) by (intros ->; specialize (Her eq_refl); lia).
+      destruct (TLInv.block_start adv (Inst.advC_range tj) (Inst.advC_one tj) Tc (Inst.TC_1 tj) (Inst.TC_rec tj) N P bs HN HP (N - TLInv.r_ t) ltac:(lia) Hbd) as (_ & _ & Hpe). fold (TLInv.blk P (N - TLInv.r_ t)) in Hpe. rewrite Hpe.
+      destruct a; try congruence; lia.
+    + destruct Hpcb as (Ep' & -> & Hr0). rewrite Ep'. cbn [TLInv.pcb]. rewrite Hr0, Hpass.
+      replace (N - TLInv.r_ t) with 0 in HA by lia. rewrite WS_0 in HA. replace (N - 0) with N by lia. fold W. lia.
+  - (* PTBlock *)
+    destruct HI as (_ & Hr & HI). cbn zeta in HI. rewrite Epc in HI. destruct HI as ((Hper & _ & _) & _ & _ & _ & Hn0 & _).
+    destruct (blk_pend n0s Hper) as [Hbp Hpn].
+    destruct (Z.ltb_spec (TLInv.r_ t) (N - n0s)) as [Hlt|Hge].
+    + rewrite Hpcb. assert (Ha : a <> EndReverse) by (intros ->; specialize (Her eq_refl); destruct Hper; lia).
+      destruct a; try congruence; lia.
+    + assert (Hreq : TLInv.r_ t = N - n0s) by lia. rewrite (WS_unfold (pendN n0s) Hpn), Hbp in HA.
+      destruct (Z.ltb_spec (TLInv.r_ t) N) as [Hlt|HgeN].
+      * rewrite Hpcb. assert (Ha : a <> EndReverse) by (intros ->; specialize (Her eq_refl); lia).
+        destruct Hper as [Hp0 Hpm].
+        destruct (TLInv.block_start adv (Inst.advC_range tj) (Inst.advC_one tj) Tc (Inst.TC_1 tj) (Inst.TC_rec tj) N P bs HN HP (N - TLInv.r_ t) ltac:(lia) ltac:(right; rewrite Hreq; replace (N - (N - n0s)) with n0s by lia; exact Hpm)) as (_ & _ & Hpe).
+        fold (TLInv.blk P (N - TLInv.r_ t)) in Hpe. rewrite Hpe. replace (N - TLInv.r_ t) with n0s by lia.
+        destruct a; try congruence; lia.
+      * destruct Hpcb as (Ep' & -> & Hr0). rewrite Ep'. cbn [TLInv.pcb]. rewrite Hr0, Hpass. assert (n0s = 0) by lia. subst n0s.
+        rewrite WS_0 in HA. replace (N - 0) with N by lia. fold W. lia.
+  - rewrite Hpcb. assert (Ha : a <> EndReverse) by (intros ->; specialize (Her eq_refl); destruct HI as (_ & Hr & HI); cbn zeta in HI; rewrite Epc in HI; destruct HI as ((Hper & _ & Hpe) & _ & _ & _ & _ & Hn & _); destruct Hper; lia).
+    destruct a; try congruence; lia.
+  - rewrite Hpcb. assert (Ha : a <> EndReverse) by (intros ->; specialize (Her eq_refl); destruct HI as (_ & Hr & HI); cbn zeta in HI; rewrite Epc in HI; destruct HI as ((Hper & _ & Hpe) & _ & _ & _ & Hn & _); destruct Hper; lia).
+    destruct a; try congruence; lia.
+  - rewrite Hpcb. assert (Ha : a <> EndReverse) by (intros ->; specialize (Her eq_refl); try rewrite Epc in HI; destruct HI as (_ & Hr & HI); cbn zeta in HI; cbn [TLInv.pcv TLInv.mk TLInv.n_ TLInv.r_] in HI; destruct HI as ((Hper & _ & Hpe) & _ & _ & _ & Hn & _); destruct Hper; cbn [TLInv.n_ TLInv.r_ TLInv.mk] in *; lia).
+    destruct a; try congruence; lia.
+  - rewrite Hpcb. assert (Ha : a <> EndReverse) by (intros ->; specialize (Her eq_refl); destruct HI as (_ & Hr & HI); cbn zeta in HI; rewrite Epc in HI; destruct HI as ((Hper & _ & Hpe) & _ & _ & Hn & Hn2 & _); destruct Hper; lia).
+    destruct a; try congruence; lia.
+  - rewrite Hpcb. assert (Ha : a <> EndReverse) by (intros ->; specialize (Her eq_refl); destruct HI as (_ & Hr & HI); cbn zeta in HI; rewrite Epc in HI; destruct HI as ((Hper & _ & Hpe) & _ & _ & Hn & Hn2 & _); destruct Hper; lia).
+    destruct a; try congruence; lia.
+Qed.
+
+Lemma apply_passes p exh X a : passes (apply p exh X a) = passes X + (match a with EndReverse => 1 | _ => 0 end).
+Proof.
+  destruct a as [n0 n1 wi wa sg|n1 n0 cl|n src dst|n src dst| |]; cbn [apply]; try (cbn; lia).
+  - unfold put. destruct (is_cp sg); cbn; lia.
+  - destruct (lookup n (sel X src)); [|lia]. destruct dst; unfold put; cbn; try lia; destruct (is_cp _); cbn; lia.
+  - destruct (lookup n (sel X src)); [|lia]. destruct dst; unfold put; cbn; try lia; destruct (is_cp _); cbn; lia.
+Qed.
+
+Inductive J2 : sched -> mon -> Prop :=
+ | J2r q n r sn d0 x m stt : is_pt q = true -> mon_ok m -> TLInv.Inv (Inst.TC tj) N P bs d0 (tst q n r sn) x -> Rx x (mx m) -> NNx x ->
+     TLInv.fwd x = Some n -> Acct d0 (tst q n r sn) x -> passes (mx m) = TLInv.passes x -> J2 (tsched (ost q n r sn) stt) m.
+
+Lemma J2_step sch m : J2 sch m -> mon_ok m -> good_step ptl J2 sch m.
+Proof.
+  intros HJ _. unfold good_step. inversion HJ as [q n r sn d0 x m0 stt Hq Hm HI HR HNN Hfw HA HP2]; subst; clear HJ.
+  pose proof (TLInv.step_okD (Inst.advC tj) (Inst.advC_range tj) (Inst.advC_one tj) (Inst.TC tj) (Inst.TC_1 tj) (Inst.TC_rec tj)
+               N P bs bst HN HP Hbs bst_cp d0 (tst q n r sn) x 0%nat HI) as Hgood.
+  unfold TLInv.GoodD in Hgood.
+  destruct (TLInv.resume (Inst.advC tj) N P bs bst 4 (tst q n r sn)) as [t' o] eqn:Eres.
+  destruct o as [a| |]; try contradiction. destruct Hgood as (x' & Hex & HI').
+  pose proof (acct_step d0 _ x t' a x' HI HA Eres Hex) as HA'.
+  destruct (resume_agrees 4 q n r sn t' a Hq ltac:(destruct q; cbn; lia) (fun n0s => Inv_aftercopy d0 q n r sn x n0s HI) Eres)
+    as (q' & n' & r' & sn' & Hon & -> & Hq' & Hn' & Hr' & Hcl).
+  unfold Sched.next, tsched. cbn [ob]. unfold Online.next. rewrite Hon.
+  set (sch' := {| ob := OOnline (ost q' n' r' sn'); started := true |}).
+  destruct (tl_exec_agrees x (mx m) a x' HR HNN Hcl Hex) as (Hchk & HR' & HNN').
+  assert (Hexec : exec ptl (negb (isnone (get_max_n sch'))) (is_exhausted sch') (mx m) a = inl (apply ptl false (mx m) a))
+    by (apply exec_ok; exact Hchk).
+  pose proof (texec_fwd_after x a x' n Hex Hfw) as Hfw'. rewrite <- Hn' in Hfw'.
+  pose proof (Inv_rr _ _ _ HI') as Hrr'. cbn [tst TLInv.r_] in Hrr'.
+  pose proof HR' as (Rf & _ & _ & Rrr & _).
+  pose proof (TLInv.exec_passes adv (Inst.advC_range tj) (Inst.advC_one tj) Tc (Inst.TC_1 tj) (Inst.TC_rec tj) N P bs bst HN HP x a x' Hex) as Hpass.
+  destruct m as [X merr cnt0]. unfold mon_ok in Hm. cbn [merr_] in Hm. subst merr.
+  rewrite (mon_step_ok ptl sch' a {| mx := X; merr_ := None; mcount := cnt0 |} _ eq_refl Hexec).
+  - split; [reflexivity|]. apply (J2r q' n' r' sn' (d0 + TLInv.bonus Tc N P bs (tst q n r sn)) x'); auto; try reflexivity.
+    cbn [mx] in *. rewrite apply_passes, Hpass, HP2. reflexivity.
+  - cbn [mx] in Rf |- *. rewrite Rf, Hfw'. cbn [get_max_n sch' ob ost Online.max_n_ Online.b isnone andb get_n Online.n_]. apply Z.eqb_refl.
+  - cbn [get_r sch' ob ost Online.r_ Online.b]. cbn [mx] in Rrr |- *. rewrite Rrr. symmetry. exact Hrr'.
+  - cbn [get_max_n sch' ob ost Online.max_n_ Online.b oz_ok xN ptl]. apply Z.eqb_refl.
+Qed.
+
+(* between passes (the generator at the head of its `while True`, which it reaches only after EndForward / EndReverse) the
+   reference executor has carried out N + passes * W forward steps: every adjoint pass costs exactly the sum of the per-block
+   binomial optima *)
+Theorem twolevel_totals : forall k,
+  let '(s2, m, ls) := run_ops ptl (fsched PStart 0 None false) mon0 (repeat Next (Z.to_nat Q) ++ [Fin N] ++ repeat Next (S k)) in
+  mon_ok m /\ no_raise ls /\
+  (forall o, ob s2 = OOnline o -> Online.pcv o = PTOuter ->
+     fwd_total (cnt (mx m)) = N + passes (mx m) * W + (W - WS (N - Online.r_ (Online.b o)))).
+Proof.
+  intros k. pose proof Q_spec as [HQ1 HQ2].
+  destruct (sweep_phase (Z.to_nat Q) ltac:(lia)) as (s & m & ls & Hrun & HI & Hnr).
+  rewrite run_ops_app, Hrun.
+  assert (HS : exists j, Z.to_nat Q = S j) by (exists (Nat.pred (Z.to_nat Q)); lia). destruct HS as [j Hj].
+  rewrite Hj in HI. inversion HI as [|j0 c cn Hc0]; subst. clear HI.
+  assert (HQj : Z.of_nat (S j) = Q) by lia. rewrite HQj in *.
+  change ([Fin N] ++ repeat Next (S k)) with (Fin N :: Next :: repeat Next k). cbn [run_ops].
+  assert (Hfin : finalize N (fsched PFwd (Q * P) None true) = (fsched PFwd N (Some N) true, None)).
+  { unfold finalize, fsched. cbn [ob Online.b Online.k Online.pcv Online.snaps Online.exh started]. unfold Online.finalize.
+    cbn [Online.max_n_ Online.n_ Online.r_]. destruct (Z.ltb_spec N 1); [lia|]. destruct (Z.geb_spec (Q * P) N); [|lia]. reflexivity. }
+  rewrite Hfin.
+  (* EndForward *)
+  unfold Sched.next at 1. unfold fsched at 1. cbn [ob]. unfold Online.next.
+  change (Online.resume 4 _) with
+    ({| Online.k := KTwo P bs bst tj; Online.pcv := PTOuter; Online.b := {| Online.n_ := N; Online.r_ := 0; Online.max_n_ := Some N |}; Online.snaps := []; Online.exh := false |}, Yield EndForward).
+  cbv beta iota zeta.
+  set (s1 := {| ob := OOnline _; started := true |}).
+  assert (Hmin : Z.min (Q * P) N = N) by lia.
+  set (X1 := {| fwd := Some N; w_ics := None; w_deps := None; ram := []; disk := pst (S j); rr := 0; seen_endfwd := true;
+                passes := 0; ram0 := []; disk0 := sort_keys (keys (pst (S j))); cnt := c |}).
+  assert (Hex : exec ptl (negb (isnone (get_max_n s1))) (is_exhausted s1) (xsweep (S j) c) EndForward = inl X1).
+  { rewrite exec_ok.
+    - unfold apply, xsweep, X1. rewrite HQj, Hmin. reflexivity.
+    - unfold check, xsweep. cbn [xN ptl seen_endfwd negb]. unfold fwd_is. cbn [fwd]. rewrite HQj, Hmin, Z.eqb_refl. reflexivity. }
+  rewrite (mon_step_ok ptl s1 EndForward {| mx := xsweep (S j) c; merr_ := None; mcount := cn |} _ eq_refl Hex).
+  2:{ cbn [fwd X1 get_max_n s1 ob Online.max_n_ Online.b isnone andb get_n Online.n_]. apply Z.eqb_refl. }
+  2:{ reflexivity. }
+  2:{ cbn [get_max_n s1 ob Online.max_n_ Online.b oz_ok xN ptl]. apply Z.eqb_refl. }
+  (* the adjoint passes *)
+  set (x1 := {| TLInv.fwd := Some N; TLInv.wics := None; TLInv.wdeps := None; TLInv.bin := []; TLInv.rr := 0; TLInv.done := N; TLInv.passes := 0 |}).
+  assert (HJ : J2 s1 {| mx := X1; merr_ := None; mcount := cn + 1 |}).
+  { subst s1. change (OOnline _) with (OOnline (ost PTOuter N 0 [])).
+    apply (J2r PTOuter N 0 [] N x1 _ true); try reflexivity.
+    - unfold TLInv.Inv, TLInv.InvCore, TLInv.norm, tst, x1. cbn [pcT TLInv.pcv TLInv.n_ TLInv.r_ TLInv.snaps TLInv.rr TLInv.bin TLInv.wics TLInv.wdeps TLInv.done].
+      cbn zeta. repeat split; auto; lia.
+    - unfold Rx, X1, x1. cbn [mx fwd w_ics w_deps rr seen_endfwd ram disk ram0 disk0 cnt TLInv.fwd TLInv.wics TLInv.wdeps TLInv.rr TLInv.bin TLInv.done].
+      rewrite !binpart_nil, Hj. cbn [app]. repeat split; auto. rewrite Hc0, Hmin. reflexivity.
+    - unfold NNx, x1. cbn [TLInv.fwd TLInv.wdeps TLInv.bin TLInv.rr TLInv.lookup]. repeat split; try discriminate; try lia.
+      intros v Hv; injection Hv as <-; lia.
+    - unfold Acct, tst, x1. cbn [TLInv.pcv pcT TLInv.pcb TLInv.r_ TLInv.passes]. replace (N - 0) with N by lia. fold W. lia. }
+  pose proof (run_nexts ptl J2 J2_step k _ _ HJ eq_refl) as Hr.
+  destruct (run_ops ptl s1 _ (repeat Next k)) as [[s2 m2] l2]. destruct Hr as (HJ2 & Hm2 & Hl2).
+  split; [exact Hm2|]. split.
+  - apply Forall_app. split; [exact Hnr|]. constructor; [exact Logic.I|]. constructor; [exact Logic.I|exact Hl2].
+  - intros o Ho Hpc. inversion HJ2 as [q n r sn d0 x m0 stt Hq Hm HI HR HNN Hfw HA HP2]; subst.
+    unfold tsched in Ho. cbn [ob] in Ho. injection Ho as <-. cbn [ost Online.pcv Online.b Online.r_] in *. subst q.
+    unfold Acct, tst in HA. cbn [TLInv.pcv pcT TLInv.pcb TLInv.r_] in HA.
+    unfold TLInv.Inv, TLInv.InvCore, TLInv.norm, tst in HI. cbn [pcT TLInv.pcv TLInv.n_ TLInv.r_ TLInv.snaps] in HI.
+    destruct HI as (_ & _ & HI). cbn zeta in HI. destruct HI as (_ & _ & _ & _ & Hd).
+    destruct HR as (_ & _ & _ & _ & _ & _ & _ & _ & _ & Rtot). rewrite Rtot, Hd, HA, HP2. reflexivity.
+Qed.
 End MACH.
 Print Assumptions twolevel_run.
+Print Assumptions twolevel_totals.
